@@ -32,7 +32,14 @@ type ByteDir struct {
 	ReadLog [][2]int
 	// EndErr is the terminal error the reader was given (nil until then).
 	EndErr error
+	// WriteLog / DelivLog record (end offset, global event sequence) of every Write and
+	// every Deliver, so that oracles can order wire events across streams.
+	WriteLog [][2]int
+	DelivLog [][2]int
 }
+
+// EventSeq is a process-wide event counter for ordering wire events (reset per run).
+var EventSeq int
 
 // NewByteDir creates a direction (inside the bubble).
 func NewByteDir(name string) *ByteDir {
@@ -59,6 +66,8 @@ func (d *ByteDir) Write(b []byte) (int, error) {
 		n = d.ShortWrite
 	}
 	d.All = append(d.All, b[:n]...)
+	EventSeq++
+	d.WriteLog = append(d.WriteLog, [2]int{len(d.All), EventSeq})
 	return n, nil
 }
 
@@ -91,6 +100,8 @@ func (d *ByteDir) Deliver(k int) {
 	}
 	if k > 0 {
 		d.deliv += k
+		EventSeq++
+		d.DelivLog = append(d.DelivLog, [2]int{d.deliv, EventSeq})
 		d.bcast()
 	}
 	d.mu.Unlock()
